@@ -11,6 +11,7 @@ CONSTANTS
   ClassExprs <- ClassExprsCore
   Repaired = {"KvCompName", "SliceKVRules"}
   Variant = "packageState"
+  NonceCtxs = {"c1", "c2"}
   MaxNonces = 1
   MaxSteps = 99
   EmitEdges = FALSE
